@@ -290,6 +290,37 @@ R["ibldsp.waveforms.wave_shift_corrmax"] = [
     ("V1__, V2__ = parabolic_max(A__)", {"V1__": "ipeak", "V2__": "maxi"}),
 ]
 
+# ------------------------------------------------------------------------------------------------ C19 / C20
+R["ibldsp.utils.sync_timestamps"] = [
+    ("V__ = numpy.zeros(tsa.shape, dtype=A__) - 1", {"V__": "ib"}),
+    ("V__ = numpy.full(tsa.shape, -1, dtype=A__)", {"V__": "ib"}),
+    ("V__ = numpy.zeros(A__)", {"V__": "x"}),
+    ("V__ = numpy.zeros_like(x)", {"V__": "y"}),
+    ("V__ = (parabolic_max(A__)[0] - B__ + 1) * tbin", {"V__": "delta_t"}),
+    ("V__ = numpy.where(ib < 0)[0]", {"V__": "iamiss"}),
+    ("V__ = numpy.setxor1d(A__, B__)", {"V__": "ibmiss"}),
+    ("V__ = numpy.abs(F__(tsa[A__]) - B__)", {"V__": "dt"}),
+]
+R["ibldsp.utils.sync_timestamps._interp_fcn"] = [
+    ("V__ = numpy.polyfit(A__, B__, 1)", {"V__": "ab"}),
+    ("V__ = ab[0] * 1000000.0", {"V__": "drift_ppm"}),
+]
+R["ibldsp.spiketrains._spikes_venn"] = [
+    ("V__ = max([numpy.max(samples) for samples in samples_tuple])", {"V__": "max_samples"}),
+    ("V__ = int(max_samples // chunk_size + 1)", {"V__": "num_chunks"}),
+    ("V__ = numpy.zeros(A__, int)", {"V__": "pre_result"}),
+    ("V__ = numpy.array([2 ** i for i in range(A__, -1, -1)])", {"V__": "vec"}),
+    ("V1__, V2__ = numpy.unique(A__, return_counts=True)", {"V1__": "conds", "V2__": "counts"}),
+]
+R["ibldsp.voltage.stack"] = [
+    ("V__ = numpy.zeros((A__, B__), dtype=data.dtype)", {"V__": "stack"}),
+]
+R["ibldsp.smooth.non_uniform_savgol"] = [
+    ("V__ = window // 2", {"V__": "half_window"}),
+    ("V__ = numpy.full(len(y), numpy.nan)", {"V__": "y_smoothed"}),
+    ("V__ = numpy.empty(window)", {"V__": "t"}),
+]
+
 # ------------------------------------------------------------------------------------------------ additions
 _GP = ("V__ = numpy", {"V__": "gp"})  # `gp = np` array-module alias (cupy stand-in); must resolve first
 for _q in ("ibldsp.voltage.agc", "ibldsp.voltage.kfilt", "ibldsp.voltage.interpolate_bad_channels", "ibldsp.fourier.convolve", "ibldsp.utils.fcn_cosine"):
